@@ -1581,14 +1581,14 @@ class SQLiteCompiler(compiler.SQLCompiler):
 
     def visit_is_distinct_from_binary(self, binary, operator, **kw):
         return "%s IS NOT %s" % (
-            self.process(binary.left),
-            self.process(binary.right),
+            self.process(binary.left, **kw),
+            self.process(binary.right, **kw),
         )
 
     def visit_is_not_distinct_from_binary(self, binary, operator, **kw):
         return "%s IS %s" % (
-            self.process(binary.left),
-            self.process(binary.right),
+            self.process(binary.left, **kw),
+            self.process(binary.right, **kw),
         )
 
     def visit_json_getitem_op_binary(
